@@ -1,5 +1,6 @@
 import Driver.Util
 import Driver.Rid
+import Driver.Cell
 /-!
 # amdrv — the model driver
 
@@ -10,6 +11,7 @@ open Driver
 
 structure Engines where
   rid : Driver.Rid.St := {}
+  cell : Driver.Cell.St := {}
 
 def dispatch (e : Engines) (ws : List String) : Engines × String :=
   match ws with
@@ -17,6 +19,7 @@ def dispatch (e : Engines) (ws : List String) : Engines × String :=
   | w :: _ =>
     if w.startsWith "rid." || w.startsWith "at." then
       let (s, o) := Driver.Rid.step e.rid ws; ({ e with rid := s }, o)
+    else if w.startsWith "cell." then let (s, o) := Driver.Cell.step e.cell ws; ({ e with cell := s }, o)
     else (e, "bad-op")
 
 partial def loop (h : IO.FS.Stream) (out : IO.FS.Stream) (e : Engines) : IO Unit := do
